@@ -30,9 +30,12 @@ MANIFEST = dict(
               'manager attribute of a VMF gets with and without preserve_ids, the get_id method of each class executed symbolically into a '
               'decision list over the requested ID), the containment edges of the object graph (which attribute of which class holds child '
               'objects of which class, from the parse methods), the loops over set-typed attributes in the export methods, and the slot / '
-              'marker / axis tables of 2D viewports; vm_compute correspondence of the '
+              'marker / axis tables of 2D viewports; since round 5 the constructors and makers of a map (VMF.__init__, VMF.parse) executed '
+              'symbolically over abstract object identities: the alias pairs the constructor establishes (VMF.brushes is VMF.spawn.solids) and the '
+              'reference expression both access paths hold at every return, plus a census of the statements that rebind those attributes; '
+              'vm_compute correspondence of the '
               'escape/scanner/rounding/output/fixup/number-group-text/ID-manager/viewport models; round-trip search on real VMF objects',
-    text='Theorems in Props/C06.v (70): the tokenizer\'s quoted-string scanner inverts escape_text for every string in both modes; '
+    text='Theorems in Props/C06.v (78): the tokenizer\'s quoted-string scanner inverts escape_text for every string in both modes; '
          'every keyvalue line whose interpolations are escaped strings, numbers or plain literals re-reads as its field values (a raw '
          'string field does not); for every generated export program that passes prog_ok, every environment and call depth, the text '
          'written parses -- C01 tokenizer and Keyvalues.parse model -- to exactly the tree of keys, values and child blocks the writer '
@@ -54,11 +57,21 @@ MANIFEST = dict(
          'attributes are exported and filled, and the field codecs invert -- hence the second export equals the first; membership lines '
          'written in sorted order do not depend on the iteration order of the set; the planar axis and both coordinates of a 2D viewport '
          'survive when the coordinates are not marker values; c06_property states all of it over arbitrary generated objects with the '
-         'obligations as visible hypotheses. '
-         '209 instance obligations (315 obligations in total with theorems, correspondences, translators, ties) are regenerated '
+         'obligations as visible hypotheses. Round 5: the enumeration of worlds (which objects are truthy, which opaque conditions hold) over the '
+         'atoms of two reference expressions is a sound and complete decision procedure for "both access paths hold the same object"; when '
+         'it passes, what is appended through VMF.brushes is in the list export() reads (x or [], list(x), slices, comprehensions refuted); '
+         'c06_property_with_histories adds that to c06_property for every maker of a map; a row reader that looks keys up in a table of '
+         '2**4 names does not know row16. '
+         '213 instance obligations (329 obligations in total with theorems, correspondences, translators, ties) are regenerated '
          'from vmf.py / math.py and kernel-checked on every run. The search builds maps through the public API (all object kinds, options '
          'minimal/disp_multiblend/preserve_ids, ID schemes from 0 / sparse / huge / repeated on the objects or in the parsed text, every '
-         'tests/*.vmf) and checks text fixed point and field-by-field equality with the stated tolerances; every round trip runs under an alarm.',
+         'tests/*.vmf) and checks text fixed point and field-by-field equality with the stated tolerances; every round trip runs under an alarm. '
+         'Round 5: edit-after-parse histories: a map is built, exported and parsed; the containers the API can add to (world brushes, entities, '
+         'visgroups, groups, cameras, cordons; outputs, fixups and solids of an entity) are mostly EMPTY in the parsed map; content is added through '
+         'every public adder (add_brush / add_brushes / VMF.brushes.append, add_ent / add_ents / create_ent, vis_tree.append / create_visgroup, '
+         'constructors that register themselves, add_out, fixup[], Entity.solids.append) and removed (remove_brush, Solid.remove, remove_ent); the '
+         'edited parsed map must export the same text as the built map that got the same edits, and must round-trip; world brushes are observed '
+         'through VMF.brushes (the public view), not through spawn.solids.',
     note='Partial with respect to the whole-map statement: text -> KeyValues tree is proved for all export methods; tree -> object is '
          'proved per class at the level "which attribute receives which key" (flat: child lists are paired only as exported/parsed '
          'attributes), per array, per output value, per fixup line, per number group; the recursion over child objects is a theorem '
@@ -67,9 +80,11 @@ MANIFEST = dict(
          'seen by the translator and stay search-only; that the blocks of the tree model are the blocks of the write programs is not a '
          'theorem; the allowed_verts array is covered by key pairing and number format only; the reader loops of IDMan.get_id (search for a '
          'free ID) are one opaque "anything else" outcome; ID 0 without preserve_ids is renumbered by IDMan without updating references '
-         '(noted for C08, excluded from the generator); float(token) is outside the token models. Trusted: Coq kernel + vm_compute, translate/c06_vmf.py, c06_prog.py, c06_lite.py, c06_ids.py (key table '
+         '(noted for C08, excluded from the generator); float(token) is outside the token models. Trusted: Coq kernel + vm_compute, translate/c06_vmf.py, c06_prog.py, c06_lite.py, c06_ids.py, c06_alias.py (key table '
          'cross-checked against really exported text, number formats against really exported numbers, on every run), the hand tables '
-         '(field types, number kinds, required precision per field, class -> methods, ARRAY_ATTRS, ALIAS_ATTRS), the C01 KeyValues1 model '
+         '(field types, number kinds, required precision per field, class -> methods, ARRAY_ATTRS; ALIAS_ATTRS is now compared with the alias pairs '
+         'discovered in the constructors), translate/c06_alias.py (symbolic execution over object identities: a call does not rebind attributes of '
+         'existing objects -- checked for the aliased attributes by the rebinding census -- and truthiness does not change inside a maker), the C01 KeyValues1 model '
          '(tied by C01\'s own check), CPython number formatting being correctly rounded and producing no quote/backslash/newline, '
          'str.split/join/strip/int/casefold as modelled. Format limits excluded from the generator (docs/C06.md): keys that look like '
          'replaceNN / id, LF/CR in key names, the separator character inside output fields, fixup names with a space, >99 fixups, '
@@ -600,6 +615,18 @@ def corr_viewport(ck: Ck) -> None:
             ck.extra[f'{name}_disagreement'] = repr(cases[bad[0]])
 
 
+_T0 = [0.0]
+
+
+def stage(ck: Ck, label: str) -> None:
+    """Wall seconds spent since the previous mark, recorded in the evidence only (extra['stage_seconds']); never used in a verdict."""
+    import time
+    now = time.time()
+    if _T0[0]:
+        ck.extra.setdefault('stage_seconds', {})[label] = round(now - _T0[0], 1)
+    _T0[0] = now
+
+
 def guarded(ck: Ck, name: str, fn: Any, *args: Any) -> None:
     """A correspondence stage calls the implementation on generated inputs; the exceptions it expects are handled inside.  Anything
     else (a fault that makes the implementation raise something unexpected, or loop) is a failing input of that stage, reported as a
@@ -1029,6 +1056,9 @@ def feature_hist(ck: Ck, spec: dict) -> bool:
                         ck.hist('history_added_to_entity', c + (':was-empty' if not e[c] else ':was-filled'))
         for k, v in sorted((hist.get('api') or {}).items()):
             ck.hist('history_api', f'{k}:{v}')
+        for k, v in sorted((hist['edits'].get('removals') or {}).items()):
+            if v:
+                ck.hist('history_api', f'remove:{k}')
     ids = spec.get('ids') or {}
     feats['id_scheme'] = bool(ids)
     for kind in U.ID_KINDS:
@@ -1043,10 +1073,10 @@ def feature_hist(ck: Ck, spec: dict) -> bool:
 
 
 def search(ck: Ck) -> None:
-    # quick: 200 maps (450 until round 3, 240 until round 4; lowered to keep the quick tier below 90 s on a heavily loaded machine now that the proof side
+    # quick: 150 maps + 60 histories since round 5 (200 maps in round 4; 450 until round 3, 240 until round 4; lowered to keep the quick tier below 90 s on a heavily loaded machine now that the proof side
     # has 140 more obligations and four more correspondences; the directed corpus and the shipped files run first in any case);
     # quick with a broken tie: 2000; thorough: 7500
-    n = 7500 if ck.thorough else ck.budget(170, 2000)
+    n = 7500 if ck.thorough else ck.budget(150, 2000)
     found: dict[str, tuple[dict, str, dict]] = {}
     # Shrinking budget, counted in oracle evaluations (not wall time, so that results are reproducible): per violation key
     # and in total.  A fault in a hot path produces dozens of keys on big maps; the total keeps a failing run within minutes.
@@ -1118,7 +1148,7 @@ def search(ck: Ck) -> None:
         consider(spec, f'random #{i}')
     # histories (round 5): build -> export -> parse -> edits through the public API -> export -> parse, starting from parsed maps
     # in which the containers the API adds to are mostly empty; compared with the same edits on the map built through the API
-    n_hist = 2500 if ck.thorough else ck.budget(80, 700)
+    n_hist = 2500 if ck.thorough else ck.budget(60, 700)
     for i in range(n_hist):
         spec = U.gen_history_spec(ck.rng)
         ck.count('generated_histories')
@@ -1152,7 +1182,12 @@ def run(ck: Ck) -> None:
                'optionally wrapping so that numbers repeat -- only with preserve_ids, never for groups, which are keyed by ID) applied to the built '
                'objects or to the exported text that is then parsed. ID-manager requests: -1, negatives, 0, used and free small numbers, huge numbers, '
                'repetitions, on instances that already hold 1..39. Viewport vectors: coordinates from 0, +-65536 and ordinary integers. '
-               'Shipped files: every tests/**/*.vmf x preserve_ids x minimal.')
+               'Shipped files: every tests/**/*.vmf x preserve_ids x minimal. '
+               'Histories (round 5): a base specification in which each of world brushes / entities / visgroups / groups / cameras / cordons is emptied with '
+               'probability 0.6 (and outputs / fixups / solids of each entity with 0.5) is built, exported and parsed; then 1-2 elements per container '
+               '(at least one for every emptied container) are added to the PARSED map through a randomly chosen public adder, entities of the base get '
+               'outputs / fixups / solids, and with probability 0.3 a brush / an entity is removed; non-trivial = always (every history adds something); '
+               'distinct by full specification; 21 directed histories (blank map then everything, one container empty at a time, bare entities) run first.')
     ck.trusted.append('hand tables in translate/c06_vmf.py (field types, call graph of export methods, parse roots, vertex arity), '
                       'validated on real objects / really exported text on every run')
     ck.trusted.append('hand-copied ESCAPES table and scanner in rocq/Fmt/VmfText.v (tied by differential correspondence on every run)')
@@ -1164,6 +1199,8 @@ def run(ck: Ck) -> None:
     ck.trusted.append('translate/c06_ids.py: symbolic execution of get_id / VMF.__init__, scan for get_id call sites, for loops over set-typed '
                       'attributes (set-typed = annotated set[...] or assigned set(...)), for the position templates / marker tiers of 2D viewports; '
                       'the hand model of the reader loop of Strata2DViewport.from_vector (vp_choose; tied by correspondence)')
+    ck.trusted.append('translate/c06_alias.py: symbolic execution of the constructors and of the static / class methods that make a map over abstract '
+                      'object identities (every call / display / slice / comprehension is a new object; loops and try are joined with an opaque condition)')
     ck.trusted.append('the C01 KeyValues1 tokenizer/parser model rocq/KV/* (imported read-only; tied to keyvalues.py/tokenizer.py by check C01)')
     ck.assumptions += [
         'CPython float formatting (%.6f, %g, repr) is correctly rounded and its output contains only digits, sign, point, exponent, '
@@ -1173,17 +1210,23 @@ def run(ck: Ck) -> None:
         'families) and covered by the search',
         'IDs a map can carry are natural numbers: -1 is the API\'s "no ID", Entity.parse takes an id key as the ID only when it is all digits; '
         'without preserve_ids IDs are positive and unique (IDMan; 0 would be renumbered without updating references -- C08\'s subject)',
+        'a call made inside VMF.__init__ / VMF.parse does not rebind VMF.brushes / VMF.spawn / Entity.solids of an object that already exists '
+        '(the census gen_alias_rebinds lists every statement of vmf.py that assigns these attribute names: only makers and constructors do), and the '
+        'truthiness of a list does not change between two tests inside one maker',
         'a Python set iterates over its elements in some duplicate-free order (model: any NoDup list); sorted() is a function of the multiset',
         'str.split, str.join, int() on digit strings and str.casefold behave as modelled (split_on, join, parse_digits; casefold enters '
         'the theorems as the section variables is_inst / same_var)',
     ]
+    stage(ck, 'start')
     oks = [ck.translate(name, fn) for name, fn in {**T.GEN, **P.GEN, **L.GEN, **IDS.GEN, **AL.GEN}.items()]
     # C01's generated parser sites (read-only use of C01's translator): premise pcfg_ok of the block theorem
     oks.append(ck.translate('KVSer_gen', c01_kvser.translate))
     tr = ck.extra.get('translated', {})
     built = all(oks) and ck.build(['Gen/KVSer_gen.vo', 'Gen/VmfIds_gen.vo', 'Gen/VmfSets_gen.vo', 'Gen/VmfViewport_gen.vo', 'Gen/VmfAlias_gen.vo', 'Props/C06.vo'])
+    stage(ck, 'translate+build')
     if built:
         ck.theorems('Props/C06.v')
+        stage(ck, 'print_assumptions')
         obs: dict[str, str] = {}
         for fn in T.EXPORT_FUNCS:
             if fn == 'Output.export':
@@ -1285,6 +1328,7 @@ def run(ck: Ck) -> None:
             f'forallb (kind_ok gen_id_classes gen_id_managers gen_id_sites) ({kinds}) && member_loops_ok gen_member_loops && '
             'vp_ok gen_vp_tiers gen_vp_tbl gen_vp_inv && alias_table_ok gen_alias_makers gen_alias_pairs gen_alias_rows)%bool')
         res = ck.instance_obligations(IMPORTS, obs, name='c06')
+        stage(ck, 'instance_obligations')
         if not all(res.values()):
             ck.tie_broken.append('instance obligations failed: ' + ', '.join(k for k, v in res.items() if not v))
         # the two extractors (template census of round 1, structured programs of round 2) must see the same written lines
@@ -1311,12 +1355,15 @@ def run(ck: Ck) -> None:
         guarded(ck, 'plane_text', corr_plane, ck)
         guarded(ck, 'id_manager_programs', corr_ids, ck, tr.get('VmfIds_gen', {}))
         guarded(ck, 'viewport_axis', corr_viewport, ck)
+        stage(ck, 'correspondences')
         try:
             validate_tables(ck, tr.get('VmfTemplates_gen', {}), tr.get('VmfKeys_gen', {}))
         except Exception as e:     # the rich map itself may fail to export when the source is broken: the search reports that
             ck.obligation('tie:tables_validated', False, f'validation map could not be processed: {e!r}')
             ck.tie_broken.append('table validation failed')
+        stage(ck, 'validate_tables')
     search(ck)
+    stage(ck, 'search')
     # Failed obligations are explained by concrete violations of the matching kind.
     keys = [v['key'] for v in ck.violations]
     str_marks = ('KeyValError', '.mat', '.keys', 'fixups', 'logical_pos', '.name', 'comments', 'outputs', ':material', '<key>',
